@@ -18,7 +18,10 @@ import (
 
 // a template: tokens separated by single spaces; "\n" and "\n\t" are layout tokens (never changed); a
 // leading "!" marks a position of which every (position, boundary token) pair is always emitted: the
-// SG_ multiplexer position, attribute value positions, enum indices, message ids
+// SG_ multiplexer position, attribute value positions, enum indices, message ids, and one position per
+// X.Validate() call site of parser.go (attribute value type, object type, access type, env-var type,
+// signal value type, message id, an identifier) so that every Validate failure branch is reached on
+// every run by scannable tokens (keywords, other capitalizations, 129 characters, non-ASCII letters)
 type tokTemplate struct {
 	kind   string
 	prefix string // context before the definition (attribute definitions)
@@ -54,27 +57,27 @@ var tokTemplates = []tokTemplate{
 	tpl("bittiming", "", `BS_ :`),
 	tpl("bittiming", "", `BS_ : 500 : 1 , 2`),
 	tpl("nodes", "", `BU_ : A B`),
-	tpl("valuetable", "", `VAL_TABLE_ T 1 "a" 0 "b" ;`),
+	tpl("valuetable", "", `VAL_TABLE_ !T 1 "a" 0 "b" ;`),
 	tpl("message", "", `BO_ !1 M : 8 N`),
 	tpl("message-sg", "", `BO_ !1 M : 8 N NL SG_ S !: 0 | 8 @ 1 + ( 1 , 0 ) [ 0 | 0 ] "" N`),
 	tpl("message-sg", "", `BO_ !2147483649 M : 8 N NL SG_ S !M : 0 | 8 @ 1 + ( 1 , 0 ) [ 0 | 0 ] "" N NL SG_ T !m2 : 8 | 8 @ 0 - ( 0.5 , -1 ) [ -1 | 1e3 ] "u" A , B`),
 	tpl("signal", "", `SG_ S !m2 : 0 | 8 @ 0 - ( 1.5 , -2 ) [ 0 | 1e3 ] "u" A , B`),
 	tpl("signal", "", `SG_ S !: 0 | 8 @ 1 + ( 1 , 0 ) [ 0 | 0 ] "" N`),
-	tpl("sigvaltype", "", `SIG_VALTYPE_ !1 S : 1 ;`),
-	tpl("sigvaltype", "", `SIG_VALTYPE_ !1 S 2 ;`),
+	tpl("sigvaltype", "", `SIG_VALTYPE_ !1 !S : !1 ;`),
+	tpl("sigvaltype", "", `SIG_VALTYPE_ !1 S !2 ;`),
 	tpl("msgtx", "", `BO_TX_BU_ !1 : A , B ;`),
-	tpl("envvar", "", `EV_ E : 0 [ 0 | 1 ] "u" 0 1 DUMMY_NODE_VECTOR0 N , M ;`),
-	tpl("envvardata", "", `ENVVAR_DATA_ E : 8 ;`),
+	tpl("envvar", "", `EV_ !E : !0 [ 0 | 1 ] "u" 0 1 !DUMMY_NODE_VECTOR0 N , M ;`),
+	tpl("envvardata", "", `ENVVAR_DATA_ !E : 8 ;`),
 	tpl("comment", "", `CM_ "t" ;`),
-	tpl("comment", "", `CM_ BU_ N "t" ;`),
-	tpl("comment", "", `CM_ BO_ !1 "t" ;`),
-	tpl("comment", "", `CM_ SG_ !1 S "t" ;`),
-	tpl("comment", "", `CM_ EV_ E "t" ;`),
-	tpl("attribute", "", `BA_DEF_ "a" INT !0 !10 ;`),
-	tpl("attribute", "", `BA_DEF_ BO_ "h" HEX !0 !10 ;`),
-	tpl("attribute", "", `BA_DEF_ SG_ "f" FLOAT !0 !1.5 ;`),
-	tpl("attribute", "", `BA_DEF_ BU_ "s" STRING ;`),
-	tpl("attribute", "", `BA_DEF_ EV_ "e" ENUM "x" , "y" ;`),
+	tpl("comment", "", `CM_ !BU_ N "t" ;`),
+	tpl("comment", "", `CM_ !BO_ !1 "t" ;`),
+	tpl("comment", "", `CM_ !SG_ !1 S "t" ;`),
+	tpl("comment", "", `CM_ !EV_ E "t" ;`),
+	tpl("attribute", "", `BA_DEF_ "a" !INT !0 !10 ;`),
+	tpl("attribute", "", `BA_DEF_ !BO_ "h" !HEX !0 !10 ;`),
+	tpl("attribute", "", `BA_DEF_ !SG_ "f" !FLOAT !0 !1.5 ;`),
+	tpl("attribute", "", `BA_DEF_ !BU_ "s" !STRING ;`),
+	tpl("attribute", "", `BA_DEF_ !EV_ "e" !ENUM "x" , "y" ;`),
 	tpl("attrdefault", attrContext, `BA_DEF_DEF_ "a" !5 ;`),
 	tpl("attrdefault", attrContext, `BA_DEF_DEF_ "h" !7 ;`),
 	tpl("attrdefault", attrContext, `BA_DEF_DEF_ "f" !0.5 ;`),
@@ -86,10 +89,10 @@ var tokTemplates = []tokTemplate{
 	tpl("attrdefault", collideContext, `BA_DEF_DEF_ "AB" !"v" ;`),
 	tpl("attrdefault", collideContext, `BA_DEF_DEF_ "aB" !"v" ;`),
 	tpl("attrvalue", attrContext, `BA_ "a" !5 ;`),
-	tpl("attrvalue", attrContext, `BA_ "h" BO_ !1 !7 ;`),
-	tpl("attrvalue", attrContext, `BA_ "f" SG_ !1 S !0.5 ;`),
-	tpl("attrvalue", attrContext, `BA_ "s" BU_ N !"v" ;`),
-	tpl("attrvalue", attrContext, `BA_ "e" EV_ E !1 ;`),
+	tpl("attrvalue", attrContext, `BA_ "h" !BO_ !1 !7 ;`),
+	tpl("attrvalue", attrContext, `BA_ "f" !SG_ !1 S !0.5 ;`),
+	tpl("attrvalue", attrContext, `BA_ "s" !BU_ N !"v" ;`),
+	tpl("attrvalue", attrContext, `BA_ "e" !EV_ E !1 ;`),
 	tpl("attrvalue", attrContext, `BA_ "e" EV_ E !"z" ;`),
 	tpl("attrvalue", "", `BA_ "nodef" !1 ;`),
 	tpl("attrvalue", collideContext, `BA_ "AB" !5 ;`),
@@ -118,7 +121,8 @@ func boundaryTokens() []string {
 		"99999999999999999999",
 		// enumerations
 		"INT", "HEX", "FLOAT", "STRING", "ENUM", "DUMMY_NODE_VECTOR3", "DUMMY_NODE_VECTOR4", "DUMMY_NODE_VECTOR8000", "DUMMY_NODE_VECTOR8004",
-		"Vector__XXX",
+		"Vector__XXX", "INTEGER", "Int", "DUMMY_NODE_VECTOR", "dummy_node_vector0", "bo_", "\u00b5A", "A\u00e9", "A\u0663",
+		"3", "2684354559", "2684354560", "3221225472", "3221225473", "3758096384",
 		// characters the scanner rejects or that are no DBC tokens
 		"\x00", "\xff", "\xc3", "$", "\xc2\xb5", "\xef\xbb\xbf",
 	}
